@@ -168,7 +168,7 @@ def _random_cases(tier, seed):
     levels = str(rng.choice(['uneven', 'uneven', 'uneven', 'uneven:30', 'equi', 'hybrid:ECMWF137',
                              'hybrid:UFS127']))
     tref = str(rng.choice(['constant', 'linear', 'random', 'random', 'tropopause', 'cooling',
-                           'isothermal_top', 'plateau_cooling']))
+                           'isothermal_top', 'plateau_cooling', 'bump']))
     pool = ETAS_Q if tier == 'quick' else ETAS_T
     n_eta = 4 if tier == 'quick' else 6
     etas = [float(np.sign(e) * 10 ** rng.uniform(-4, np.log10(2.0))) if rng.random() < 0.5 else float(e)
